@@ -114,7 +114,9 @@ def pp_decl(d):
     return f"array {d[1]}[{pp_expr(d[2])}];"
 
 
-def to_source(prog, comment=None):
+def to_source(prog, comment=None, layout=None):
+    """layout: optional Rng-like object with .below(n) used to sprinkle comments (`| text` to end of
+    line) and blank lines; the token sequence is unchanged."""
     out = []
     if comment:
         out.append("| " + comment)
@@ -126,7 +128,22 @@ def to_source(prog, comment=None):
         for d in p["locals"]:
             out.append("  " + pp_decl(d))
         out.append(pp_stmt(p["body"], 1))
-    return "\n".join(out) + "\n"
+    text = "\n".join(out) + "\n"
+    if layout is not None:
+        lines = []
+        for ln in text.split("\n"):
+            k = layout.below(12)
+            if k == 0:
+                lines.append(ln + " | " + "note ; := { } \" ' 123 #FF while"[: 3 + layout.below(30)])
+            elif k == 1:
+                lines.append("")
+                lines.append(ln)
+            elif k == 2:
+                lines.append("\t" + ln + "   ")
+            else:
+                lines.append(ln)
+        text = "\n".join(lines)
+    return text
 
 
 # ------------------------------------------------------------------------------------------------
@@ -291,9 +308,12 @@ class Scope:
 
 
 class Gen:
-    def __init__(self, rng, size=1.0):
+    def __init__(self, rng, size=1.0, loose=False):
         self.r = rng
         self.size = size
+        # loose: do not keep impure calls away from non-constant siblings; the reference semantics
+        # decides which of these programs are defined (probes the boundary of its evaluation-order rule)
+        self.loose = loose
         self.used = set(KEYWORDS)
         self.gvals = {}            # name -> int
         self.gvars = []            # initialised by main's prologue
@@ -544,8 +564,8 @@ class Gen:
             c = self.const_expr(sc, 2)[0]
             b = sub(sc, depth - 1, False)
             return ["bin", op, c, b, False]
-        a = sub(sc, depth - 1, False)
-        b = sub(sc, depth - 1, False)
+        a = sub(sc, depth - 1, imp and self.loose)
+        b = sub(sc, depth - 1, imp and self.loose)
         chain = op in ASSOC and b[0] == "bin" and b[1] == op and r.chance(2, 3)
         if b[0] in ("bin", "call", "sub", "syscall", "un"):
             self.features["shape:rhs-needs-temp"] += 1
@@ -709,7 +729,7 @@ class Gen:
                     shapes.append("call")
                 out.append(e)
             else:
-                out.append(self.gen_int(sc, depth, False)); shapes.append("expr")
+                out.append(self.gen_int(sc, depth, self.loose and allow_impure)); shapes.append("expr")
         for i, s in enumerate(shapes):
             if s == "temp" and "call" in shapes[i + 1:]:
                 self.features["shape:temp-actual-before-call-actual"] += 1
@@ -984,7 +1004,7 @@ class Gen:
         kind = "func" if r.chance(3, 5) else "proc"
         p = PInfo(self.fresh("proc"), kind)
         sc = Scope(self, p)
-        nform = r.choice([0, 1, 1, 2, 2, 3, 4])
+        nform = r.choice([0, 1, 1, 2, 2, 3, 4, 5, 8] if r.chance(1, 5) else [0, 1, 1, 2, 2, 3, 4])
         style = r.below(100)
         p.pure = kind == "func" and r.chance(1, 2)
         sc.must_pure = p.pure
@@ -1014,7 +1034,7 @@ class Gen:
                 p.formals.append(("val", n, 0, False))
                 sc.vformals.append(n)
         locals_ = []
-        for _ in range(r.below(3)):
+        for _ in range(r.below(3) if r.chance(4, 5) else 3 + r.below(5)):
             n = self.local_name(sc)
             if n is not None and n not in names and n not in sc.vars:
                 if r.chance(1, 4):
@@ -1209,10 +1229,12 @@ class Gen:
         return {"globals": globals_, "procs": procs}
 
 
-def generate(rng, size=1.0):
+def generate(rng, size=1.0, loose=False):
     """returns (program, features Counter)"""
-    g = Gen(rng, size)
+    g = Gen(rng, size, loose)
     prog = g.gen_program()
+    if loose:
+        g.features["mode:loose"] += 1
     return prog, g.features
 
 
